@@ -147,6 +147,8 @@ def oracle(ctx, deep):
     need("class0", "-", "None")
     need("newchar", "17,15,0,16,-,0,-", "NewCharRecipe defaults (Length, Allow, Require, Exclude, AllowChars, #RequireSets, ExcludeChars)")
     need("newwl", "5,%s,-,true,2" % core.hx("none"), "NewWLRecipe defaults (Length, Capitalize, SeparatorChar, SeparatorFunc nil, Size)")
+    need("newchar2", "9,15,0,16,-,0,-,first=3", "a second NewCharRecipe after the caller changed every field of the first (defaults again; the first keeps Length 3)")
+    need("newwl2", "4,%s,-,true,2,first=2" % core.hx("none"), "a second NewWLRecipe after the caller changed every field of the first")
     need("budget", "200,1.0000000000000001e-09", "MaxTrials, MaxFailRate")
     need("caps", "none,first,all,random,one", "capitalisation scheme constants")
     need("types", "0,1", "token types")
